@@ -572,6 +572,7 @@ class ProgGen:
         fams["sumtypes"] = ch.draw(4, "fam_sum") == 0
         fams["ctlist"] = ch.draw(4, "fam_ctlist") == 0
         fams["gstruct"] = ch.draw(4, "fam_gstruct") == 0
+        fams["affine"] = ch.draw(4, "fam_affine") == 0
         if fams["qhelpers"]:
             self.qhelpers = True
             src += ["@guppy", f"def {prefix}qgate(q: qubit) -> None:", "    h(q)", "    x(q)", "",
@@ -655,6 +656,19 @@ class ProgGen:
                     "        acc += 1", "    return acc", ""]
             defs += [f"{prefix}opt", f"{prefix}eith", f"{prefix}sums"]
             sigs.append(FnSig(f"{prefix}sums", [("x", "int"), ("c", "bool")], "int", "sumtypes"))
+        if fams["affine"]:
+            # generic functions over an affine and over a copyable type variable whose
+            # dangling values have types that render alike (Option[$0], Either[$0, int])
+            src += [f"{prefix}AT = guppy.type_var(\"{prefix}AT\", copyable=False, droppable=True)",
+                    f"{prefix}CT = guppy.type_var(\"{prefix}CT\")", "",
+                    "@guppy", f"def {prefix}aff_consume(x: Option[{prefix}AT] @owned) -> None:", "    pass", "",
+                    "@guppy", f"def {prefix}cop_first(x: {prefix}CT, y: Option[{prefix}CT]) -> {prefix}CT:",
+                    "    return x", "",
+                    "@guppy", f"def {prefix}aff_either(x: Either[{prefix}AT, int] @owned) -> None:", "    pass", "",
+                    "@guppy", f"def {prefix}cop_either(x: int, y: Either[{prefix}CT, int]) -> int:",
+                    "    return x", ""]
+            order = [f"{prefix}aff_consume", f"{prefix}cop_first", f"{prefix}aff_either", f"{prefix}cop_either"]
+            defs += order if ch.draw(2, "affine_order") else order[::-1]
         if fams["gstruct"]:
             # a generic struct (3.12 syntax, implicit self) with several methods,
             # instantiated at two types: several monomorphic instances per method
